@@ -4092,8 +4092,11 @@ impl CanonicalizeContext {
 		let mut parsed_mrow = top_of_stack.mrow;
 		assert_eq!( name(&top_of_stack.mrow), "mrow");
 		let mut is_authored_mo = false;
+		let mut lifted_child_id = None;
 		if parsed_mrow.children().len() == 1 && is_ok_to_merge_child {
 			parsed_mrow = top_of_stack.remove_last_operand_from_mrow();
+			// the id of the element that survives is the one the author gave to it (not the id of the mrow that is dropped)
+			lifted_child_id = parsed_mrow.attribute_value("id").map(|id| id.to_string());
 			// was synthesized, but is really the original top level mrow
 			// an operator the author wrote (e.g., the only child of an mstyle/mpadded that was turned into an mrow) must not be marked as 'added'
 			//   because added operators are removed again when chemistry guesses are undone
@@ -4102,6 +4105,9 @@ impl CanonicalizeContext {
 	
 		parsed_mrow.remove_attribute(CHANGED_ATTR);
 		let parsed_mrow = add_attrs(parsed_mrow, &saved_mrow_attrs);
+		if let Some(id) = lifted_child_id {
+			parsed_mrow.set_attribute_value("id", &id);
+		}
 		if is_authored_mo && parsed_mrow.attribute_value(CHANGED_ATTR) == Some(ADDED_ATTR_VALUE) {
 			parsed_mrow.remove_attribute(CHANGED_ATTR);
 		}
